@@ -3,6 +3,8 @@
 use crate::report::*;
 
 pub mod common;
+pub mod c02;
+pub mod c04;
 pub mod c07;
 pub mod c12;
 pub mod c14;
@@ -25,6 +27,8 @@ pub struct Scenario {
 
 pub fn all() -> Vec<Scenario> {
     vec![
+        Scenario { name: "c02", plan: c02::plan, run: c02::run },
+        Scenario { name: "c04", plan: c04::plan, run: c04::run },
         Scenario { name: "c07", plan: c07::plan, run: c07::run },
         Scenario { name: "c12", plan: c12::plan, run: c12::run },
         Scenario { name: "c14", plan: c14::plan, run: c14::run },
